@@ -212,6 +212,9 @@ func driverRT(c *Ctx) {
 			how = "boundary"                   // element counts and payload sizes around 255|256
 			big = i%(16*bigEvery(c.Tier)) == 5 // ... and around 65535|65536
 		}
+		if i%16 == 11 {
+			how = "deep" // many lists open at once
+		}
 		var m *ast.DataMessage
 		var item ast.ItemNode = ast.NewEmptyItemNode()
 		depth := 1 + g.pick(4)
@@ -223,7 +226,7 @@ func driverRT(c *Ctx) {
 		case "boundary":
 			item = sizeBoundaryItem(g, big).Build()
 		case "deep":
-			d := []int{8, 15, 16, 17, 18, 31, 32, 33, 64, 65, 129}[g.pick(11)]
+			d := []int{8, 15, 16, 17, 18, 31, 32, 33, 64, 65, 100}[g.pick(11)] // (the JSON reader of TLC nests at most 255 deep)
 			var cur ast.ItemNode = g.leaf(false).Build()
 			for k := 0; k < d; k++ {
 				switch g.pick(3) {
@@ -522,6 +525,18 @@ func driverCorrupt(c *Ctx) {
 		hasItem := g.pick(10) != 0
 		if hasItem {
 			item = g.tree(1+g.pick(3), false).Build()
+		}
+		if i%10 == 3 {
+			// many lists open at once
+			item = g.leaf(false).Build()
+			for k, d := 0, 14+g.pick(30); k < d; k++ {
+				if g.pick(2) == 0 {
+					item = ast.NewListNode(item)
+				} else {
+					item = ast.NewListNode(ast.NewUintNode(1, k), item)
+				}
+			}
+			hasItem = true
 		}
 		base := buildComplete(g, gm, item, 0).ToBytes()
 		variants := [][]byte{base}
